@@ -205,7 +205,7 @@ def run(ctx):
             "cores > 1: demanded is exactly-once delivery, equal content, and written order within each goroutine's stream; "
             "the statement's 'same order for any number of reader cores' is NOT met across goroutines by design of the reader "
             "(see known finding: emit is called concurrently, one goroutine per block)",
-            "coordinates: |read - written| <= 1e-7 degrees (one granularity step of 100 nanodegrees) + 1e-12 float slack",
+            "coordinates: |read - written| <= 0.5e-7 degrees (half a granularity step of 100 nanodegrees: nearest multiple) + 1e-12 float slack",
             "(kind, ID) pairs are unique in multi-core cases so deliveries can be attributed; duplicate IDs are read with one core",
         ],
         exhaustive=True,
